@@ -67,7 +67,7 @@
 //!   or both will suffice.
 //!
 
-use chrono::{DateTime, Utc};
+use chrono::{TimeZone, Utc};
 use futures::future::BoxFuture;
 use std::{
     fmt::{Debug, Display},
@@ -293,8 +293,28 @@ where
 pub struct ReadableSystemTime(pub SystemTime);
 impl Display for ReadableSystemTime {
     fn fmt(&self, f: &mut std::fmt::Formatter<'_>) -> std::fmt::Result {
-        let format = DateTime::<Utc>::from(self.0).format("%Y-%m-%d %H:%M:%S%.3f %Z (%s%.9f)");
-        Display::fmt(&format, f)
+        // `DateTime::<Utc>::from(SystemTime)` panics for times outside chrono's range (roughly
+        // +-262000 years). Such times can come from storage or from the clock, and they end up
+        // here through log messages, so they must be printable: fall back to the raw value.
+        let (secs, nanos) = match self.0.duration_since(SystemTime::UNIX_EPOCH) {
+            Ok(d) => (i64::try_from(d.as_secs()).ok(), d.subsec_nanos()),
+            Err(e) => {
+                let d = e.duration();
+                let secs = i64::try_from(d.as_secs()).ok().and_then(i64::checked_neg);
+                if d.subsec_nanos() == 0 {
+                    (secs, 0)
+                } else {
+                    (
+                        secs.and_then(|s| s.checked_sub(1)),
+                        1_000_000_000 - d.subsec_nanos(),
+                    )
+                }
+            }
+        };
+        match secs.and_then(|s| Utc.timestamp_opt(s, nanos).single()) {
+            Some(time) => Display::fmt(&time.format("%Y-%m-%d %H:%M:%S%.3f %Z (%s%.9f)"), f),
+            None => write!(f, "{:?}", self.0),
+        }
     }
 }
 impl Debug for ReadableSystemTime {
